@@ -1,5 +1,5 @@
 """C18 — string analysis and quoting agree with the parser: special-character sets, reserved words, margins."""
-from ..facts import Broken, strip, const, walk, walk_eval, macro_name
+from ..facts import Broken, strip, const, walk, walk_eval, macro_name, show
 from ..interp import path
 from .. import cfgq, scantab
 from . import c01
@@ -217,7 +217,29 @@ def run(prog, chk):
     wt = prog.fn("write_triple_quoted")
     wc = prog.fn("write_char")
 
+    def const_set(fn, e, depth=0):
+        """Possible constant values of an overhead term: literals, conditional arms, locals with a single initialiser."""
+        e = strip(e)
+        if not isinstance(e, dict) or depth > 6:
+            return None
+        c = const(e)
+        if c is not None:
+            return {c}
+        if e.get("k") == "cond":
+            x, y = const_set(fn, e.get("then"), depth + 1), const_set(fn, e.get("else"), depth + 1)
+            return None if x is None or y is None else x | y
+        if e.get("k") == "ref":
+            inits = [v.get("init") for (b2, i2, r2, d) in fn.eval_sites("decl") for v in d.get("vars", []) if v["name"] == e["name"]]
+            stores = [a2 for (b2, i2, r2, a2) in fn.eval_sites("asg") if path(strip(a2.get("lhs"))) == e["name"]]
+            if len(inits) == 1 and inits[0] is not None and not stores:
+                return const_set(fn, inits[0], depth + 1)
+        if e.get("k") == "bin" and e.get("op") == "+":
+            x, y = const_set(fn, e.get("lhs"), depth + 1), const_set(fn, e.get("rhs"), depth + 1)
+            return None if x is None or y is None else {p + q for p in x for q in y}
+        return None
+
     def overhead(fn, var):
+        """Constant(s) the writer adds to last_column + <length> when it compares with the line limit."""
         out = set()
         for b in fn.blocks.values():
             c = cfgq.cond_of(fn, b)
@@ -227,8 +249,22 @@ def run(prog, chk):
             if c.get("k") == "bin" and c.get("op") == ">":
                 ps = {path(x) for x in walk(c.get("lhs")) if x.get("k") == "ref"}
                 if var in ps and "last_column" in ps:
-                    ks = [const(x.get("rhs")) for x in walk(c.get("lhs")) if x.get("k") == "bin" and x.get("op") == "+" and const(x.get("rhs")) is not None and "cv" not in x]
-                    out |= set(k for k in ks if k is not None)
+                    terms, st = [], [strip(c.get("lhs"))]
+                    while st:
+                        t = strip(st.pop())
+                        if isinstance(t, dict) and t.get("k") == "bin" and t.get("op") == "+" and "cv" not in t:
+                            st += [t.get("lhs"), t.get("rhs")]
+                        else:
+                            terms.append(t)
+                    tot = {0}
+                    for t in terms:
+                        if path(t) in (var, "last_column"):
+                            continue
+                        cs = const_set(fn, t)
+                        if cs is None:
+                            raise Broken("%s: overhead term `%s` of the line-limit comparison is not a constant set" % (fn.name, show(t)))
+                        tot = {p + q for p in tot for q in cs}
+                    out |= tot
         return out
     oq = overhead(wq, "length")
     ot = overhead(wt, "line1_length")
@@ -237,14 +273,15 @@ def run(prog, chk):
         a2 = strip(n["args"][2])
         if a2.get("k") == "bin" and a2.get("op") == "+" and const(a2.get("rhs")) is not None:
             extra.add(const(a2.get("rhs")))
-    if len(oq) != 1 or len(ot) != 1 or len(extra) != 1:
+    if len(oq) != 1 or not ot or len(extra) > 1:
         raise Broken("writer overhead constants not found (quoted %s, triple %s, caller %s)" % (oq, ot, extra))
     q_over = oq.pop()
-    t_close = ot.pop()
-    t_open = extra.pop()
-    want_margins = {q_over, t_close, t_open + t_close}
+    t_open = extra.pop() if extra else 0
+    want_margins = {q_over} | {t_open + t for t in ot}
+    if t_open:
+        want_margins |= set(ot)
     if margins == want_margins:
-        r3.ok("margins", "analyser %s = writer {quoted %d, triple close %d, triple open+close %d}" % (sorted(margins), q_over, t_close, t_open + t_close))
+        r3.ok("margins", "analyser %s = writer {quoted %d, triple-quoted %s}" % (sorted(margins), q_over, sorted(want_margins - {q_over})))
     else:
         r3.violation(an.file, an.name, an.line, "margins", "analyser margins %s, writer overheads %s" % (sorted(margins), sorted(want_margins)))
     # delim_length values assigned vs the writer's case labels
